@@ -4,7 +4,7 @@
    tools/sitegen/create.py regenerates from _common.eye and _utils.random on every run
    (Gen/S_create.v: s_eye_arith, s_random_plan). *)
 From Coq Require Import ZArith List Bool.
-From Verif Require Import Py PyExt PyCreate S_create Shape COO NpCreate Create Random CreateP RandomP.
+From Verif Require Import Py PyExt PyCreate S_create Shape COO NpCreate Create Random ShapeNth CreateP RandomP.
 Import ListNotations.
 Open Scope Z_scope.
 
@@ -54,6 +54,19 @@ Theorem like_den :
     (forall ix, den (ones_like one a sh) ix = one).
 Proof. exact like_den_proof. Qed.
 Print Assumptions like_den.
+
+(* ---- asarray(dense array) = COO.from_numpy(x): denotes x at every in-range index (value at row-major position
+   ravel sh ix of the flat contents), for every element type with a sound equality test; includes the 0-d case
+   in which the code makes the value the fill of an array that stores nothing *)
+Theorem asarray_den :
+  forall (V : Type) (zero : V) (veqb : V -> V -> bool),
+    (forall a b, veqb a b = true -> a = b) ->
+    forall (d : dense V) (ix : idx),
+      shape_ok (d_shape d) -> dense_wf d -> in_range (d_shape d) ix ->
+      den (asarray_dense zero veqb d) ix = dense_at V zero d ix /\
+      c_shape (asarray_dense zero veqb d) = d_shape d.
+Proof. exact asarray_den_proof. Qed.
+Print Assumptions asarray_den.
 
 (* ---- reverse(inv, N): the ascending complement, with no out-of-bounds write, no unwritten cell and no
    size mismatch in the slice assignment *)
